@@ -335,6 +335,9 @@ def create_for_folder_subcommand(
                     if new_path_media_hash is not None:
                         new_path_history = history
                         break
+                # entries without a recorded hash (e.g. folders of a generation created with -n) cannot be compared
+                if not_found_path_hash is None or new_path_media_hash is None:
+                    continue
                 new_path_hash = new_path_media_hash.find_hash_entry_for_format(not_found_path_hash.hash_format)
                 # compare found hashes
                 if new_path_hash:
@@ -362,7 +365,8 @@ def create_for_folder_subcommand(
                                 missing_asc_mhl_folder.discard(not_found_path)
                                 missing_asc_mhl_folder.add(new_path)
                         found_file_paths.add(not_found_path)
-                else:
+                elif os.path.isfile(new_path):
+                    # only a file can be hashed again in the format of the old record
                     old_hash_format_for_new_path = hasher.hash_file(
                         os.path.join(root_path, new_path), not_found_path_hash.hash_format
                     )
